@@ -160,6 +160,7 @@ namespace sx {
   bool mentions_symbols(Real t);                       // at least one free input
   std::string show(Real t);
   f64  numeric(Real t);                                // approximate value (constants) / value (replay)
+  f64  numeric0(Real t);                               // approximate value with every free symbol set to 0 (polynomial part only) / value (replay)
   bool symbolic_mode();
 
   // policy switches for the current case (reset at each path start)
